@@ -226,7 +226,7 @@ def run(ctx):
         lib.coqchk(ctx, "C07")
     ctx.rule = ("classifier functions: exhaustive -33100..-31900 and -200..200, neighbours of every named code, 64-bit boundaries, seeded "
                 "64-bit values (direct calls, vs model and spec); send_message: one matching error per code (quick: named+-1, boundaries, "
-                "seeded; thorough: the full grid) x 7 data shapes x 3 id shapes with distractors before and a result after; every typed "
+                "seeded; thorough: the full grid) x 7 data shapes x 3 id shapes with distractors before and a result after, also under DEBUG logging, with an error object lacking its message, with request params that are not JSON-native (path, Decimal, set, bytes) and with the error buffered by a peer that has hung up before the caller reads; every typed "
                 "send_* helper discovered by introspection x 8 codes x 2 scripts + success + silence; distinct = distinct case dicts")
     return lib.finish(ctx, TRUSTED, ASSUME)
 
